@@ -46,6 +46,10 @@ def shapes(tier):
         out.append(dict(part='search', value=vk))
     for vk in ('variable', 'Integer'):
         out.append(dict(part='limit', value=vk))
+    # the select list: default values of the data model, per kind of selected field
+    for qft in ('Scalar', 'Binary', 'Json'):
+        for fk in (('scalar-default-string', 'scalar-default-int', 'scalar') if qft != 'Binary' else ('scalar-default-string', 'scalar')):
+            out.append(dict(part='fields', qft=qft, field=fk))
     return out
 
 
@@ -170,6 +174,14 @@ def run_once(ctx, w, shape, tag, maxlen):
         else:
             params = entity_params(w, after=VecV(keys_), order_by=VecV(obs))
         sql = ctx.exec_fn(ctx.func('get_paging'), [Ref(Cell(params)), Ref(sq, True)])
+    elif part == 'fields':
+        fld, s2 = mk_field(w, ctx, shape['field'], tag, maxlen)
+        syms += s2
+        qn = [v[0] for v in w.src.enum_variants('QueryFieldType')]
+        qf = w.struct('QueryField', field=fld, alias=none(), json_selector=none(), field_type=Enum('QueryFieldType', qn.index(shape['qft']), shape['qft'], []))
+        eq = w.struct('EntityQuery', name=S(lit='ns.E'), alias=none(), short_name=S(lit='1'), depth=Int(64, False, 0), complexity=Int(64, False, 0), is_aggregate=False,
+                      params=entity_params(w), fields=VecV([Cell(qf)]))
+        sql = ctx.exec_fn(ctx.func('get_fields'), [Ref(Cell(eq)), Ref(sq, True), S(lit='_node'), t])
     else:
         fv, s1 = field_value(w, ctx, shape['value'], tag, maxlen)
         params = entity_params(w, first=fv)
